@@ -936,7 +936,7 @@ class Ev:
             ks = z3.simplify(kv.t) if isinstance(kv, VStr) else None
             if ks is None or not z3.is_string_value(ks):
                 self.unsupported(node, "dict literal with a non-constant key")
-            items[ks.as_string()] = self.expr(v)
+            items[py_string(ks)] = self.expr(v)
         return self.st.alloc(DictObj(items))
 
     def e_JoinedStr(self, node):
@@ -1310,6 +1310,12 @@ class Ev:
         """python-level list of Vs for a value whose length is concrete"""
         if isinstance(v, VTuple):
             return list(v.items)
+        if isinstance(v, VStr):
+            sv = z3.simplify(v.t)
+            if z3.is_string_value(sv):       # a literal: its characters (bytes iterate as ints - not modelled)
+                if v.isbytes:
+                    self.unsupported(node, "iteration over a bytes literal")
+                return [VStr(ch) for ch in py_string(sv)]
         if isinstance(v, VRef):
             o = self.st.obj(v)
             if isinstance(o, ListObj):
